@@ -234,14 +234,6 @@ def generate_malformed(ctx):
                 ctx.add('build_object%s %s %s' % (pre, gen.hexlist(keys), gen.hexlist(items)), kind='malformed')
 
 
-def normalise_outcome(c, o):
-    # a malformed case on which the Rust process died of an allocation failure is not judged
-    ctx = _CTX[0]
-    if c.kind == 'malformed' and ctx is not None and ctx.impl.get(c.id, '').startswith('abort:'):
-        return 'skipped: allocation'
-    return o
-
-
 WRITE_AS_THEY_GO = ('build_array', 'build_object')   # an error return of these two leaves the header slot + entries (recorded)
 
 
@@ -258,17 +250,13 @@ def judge(ctx):
             if left != bytes.fromhex(pre):
                 ctx.violate('an error return left bytes appended to (or changed) the buffer', case=c.line, observed=o[:300])
         if c.kind == 'malformed':
-            continue          # beyond that, corrupt buffers only feed the model/implementation diff
+            # beyond that, corrupt buffers only feed the model/implementation diff (a process death on one of them is an
+            # outcome like any other since every case gets its own outcome: the model has to show the same)
+            ctx.count('malformed_outcome', o.split(' ', 1)[0])
+            continue
         m = c.meta
-        if c.kind == 'malformed':
-            if o.startswith('abort:'):
-                ctx.count('malformed_skipped_allocation')
-            else:
-                ctx.count('malformed_outcome', o.split(' ', 1)[0])
-            continue
-        if o == 'panic':
-            ctx.violate('editor panics on valid input', case=c.line, observed=o)
-            continue
+        if o == 'panic' or o.startswith('abort:') or o == 'timeout':
+            continue          # reported by the generic rule of check.py (a valid input: violation)
         if o.startswith('ok ') and not c.line.split(' ')[0].count('@'):
             try:
                 gen.dec(gen.unhexarg(o[3:]))
